@@ -241,8 +241,8 @@ int main(int argc, char** argv) {
   // (n_extra, bound, addrtab): bound >= number of choice points == full product
   struct Plan { int n_extra; int bound; bool at; };
   std::vector<Plan> plans;
-  if (!c.thorough()) plans = {{0, 99, false}, {0, 99, true}, {1, 99, false}, {1, 99, true}, {2, 4, false}, {2, 3, true}, {3, 3, false}};
-  else plans = {{0, 99, false}, {0, 99, true}, {1, 99, false}, {1, 99, true}, {2, 5, false}, {2, 5, true}, {3, 4, false}, {3, 4, true}, {4, 3, false}};
+  if (!c.thorough()) plans = {{0, 99, false}, {0, 99, true}, {1, 99, false}, {1, 99, true}, {2, 4, false}, {2, 3, true}, {3, 3, false}, {4, 1, true}, {6, 1, false}, {8, 1, true}};
+  else plans = {{0, 99, false}, {0, 99, true}, {1, 99, false}, {1, 99, true}, {2, 5, false}, {2, 5, true}, {3, 4, false}, {3, 4, true}, {4, 3, false}, {4, 2, true}, {6, 2, false}, {6, 2, true}, {8, 2, false}, {8, 2, true}, {12, 1, true}};
   std::string bounds;
   for (auto& pl : plans) {
     auto st = xplor::explore_deviations(pl.bound, [&](xplor::Chooser& ch) -> bool {
